@@ -111,8 +111,13 @@ def judge(spec, obs, real=False):
         exp = sv.expected(tree, rid, reqs[rid], forced)
         bad = c02.judge_call(rec, tree, reqs, spec['capacity'], None)
         if bad:
-            if real and rec['kind'] == 'exc' and exp['kind'] == 'ok' and any((n.get('bs') or 0) > 0 for n in sv.tree_tags(tree)):
-                continue  # possibly a batch mate of a poison element (membership unobservable across processes)
+            if real and rec['kind'] == 'exc':
+                # batch membership is unobservable across processes: a request that passes a batched worker may legitimately fail with
+                # the error of ANY poison element of that worker (it may have shared its batch)
+                btags = [n['tag'] for n in sv.tree_tags(tree) if (n.get('bs') or 0) > 0]
+                poss = [sv.exc_norm(sv.make_exc(p2['f'][t], t, r2)) for r2, p2 in reqs.items() for t in btags if p2['f'].get(t)]
+                if sv.exc_norm(rec['payload']) in poss:
+                    continue
             clause = {'wrong_outcome': 'innocent_affected' if exp['kind'] == 'ok' else 'wrong_error'}.get(bad[0], bad[0])
             raise Violation(clause, bad[1], signature=[clause])
         if rec['kind'] == 'exc':
